@@ -294,13 +294,15 @@ def main(argv):
                       ev.get('note', ''))
         missing = (m.group(1) or m.group(2)) if m else None
         if missing in names.values():
-            special = 'missing=' + ''.join(sorted(
-                {c for c in missing if not c.isalnum() and c not in './'}))
+            # a header the build tool cannot make: identified by its
+            # characters alone (whatever edits came before)
+            key = 'C07:%s:%s:missing-header:%s' % (info[0], backend, ''.join(
+                sorted({c for c in missing if not c.isalnum() and
+                        c not in './'})))
         else:
-            special = 'names=' + special
-        ck.report('C07:%s:%s:after=%s:%s' % (
-            info[0], backend, '+'.join(prev), special) + (
-                ':pch' if 'h0' in names else ''),
+            key = 'C07:%s:%s:after=%s:names=%s' % (
+                info[0], backend, '+'.join(prev), special)
+        ck.report(key + (':pch' if 'h0' in names else ''),
             '%s (%s): %s expected/observed %s; header names %s; %s' % (
                 info[0], backend, json.dumps(ev)[:300], json.dumps(info[2]),
                 names, ev.get('note', '')),
